@@ -158,3 +158,56 @@ pub fn catch<T>(f: impl FnOnce() -> T + std::panic::UnwindSafe) -> Result<T, Str
         }
     }
 }
+
+/// Half of the file-level cases (chosen by a hash of the request line, so a replay repeats the choice) run against an
+/// output location that already holds the result of an earlier, larger run: the property fixes the file's content whatever was
+/// there before, and "open without truncate", "skip the write when there is nothing to write" or "tolerate a missing temp
+/// file" only show on a used location.
+pub fn stale_case(req: &str) -> bool {
+    let mut h: u64 = 0xcbf29ce484222325;
+    for b in req.bytes() {
+        h ^= b as u64;
+        h = h.wrapping_mul(0x100000001b3);
+    }
+    (h >> 7) & 1 == 1
+}
+
+/// an old, longer result file (well-formed-looking text)
+pub fn plant_file(path: &str, at_least: usize) {
+    let line = b"stale_record 0.125000 0.250000 0.125000 0.500000 (0.5,0.5) AAAAAAA:0-7 12\n";
+    let n = (at_least + 70_000) / line.len() + 1;
+    let mut v = Vec::with_capacity(n * line.len());
+    for _ in 0..n {
+        v.extend_from_slice(line);
+    }
+    let _ = std::fs::write(path, v);
+}
+
+/// left-overs of an earlier counting run in an output directory: an old table, an old vectors file, and chunk files of a run
+/// with `parts` partitions and three chunks (valid lines: k-mer code TAB count). Returns (name, content) of what was planted.
+pub fn plant_counter_dir(dir: &str, parts: usize) -> Vec<(String, Vec<u8>)> {
+    let mut planted = Vec::new();
+    let mut table = Vec::new();
+    for i in 0..6000u64 {
+        table.extend_from_slice(format!("{}\t{}\n", i * 3 + 1, 40 + i % 7).as_bytes());
+    }
+    planted.push(("kmers.counts".to_string(), table));
+    let mut vecs = Vec::new();
+    for _ in 0..3000 {
+        vecs.extend_from_slice(b"7 7 7 7 7 7 7 7 7 7 7 7 7 7 7 7\n");
+    }
+    planted.push(("kmers.vectors".to_string(), vecs));
+    for p in 0..parts {
+        for ch in 0..3 {
+            let mut t = Vec::new();
+            for i in 0..40u64 {
+                t.extend_from_slice(format!("{}\t{}\n", (i * parts as u64 + p as u64) * 5 + ch, 9).as_bytes());
+            }
+            planted.push((format!("temp_kmers.part_{}_chunk_{}", p, ch), t));
+        }
+    }
+    for (n, c) in &planted {
+        let _ = std::fs::write(format!("{}/{}", dir, n), c);
+    }
+    planted
+}
